@@ -1,4 +1,5 @@
 from props.lie import *
+from props import apiops
 
 TOL = {'f64': 1e-5, 'f32': 1e-1}   # the property states the double-precision bound; single precision is audited at 1e-1
 AUD = {'d2r_exp': ('a_d2rexp', 'd2r_exp(a) is not the derivative of dr_exp'),
@@ -6,6 +7,7 @@ AUD = {'d2r_exp': ('a_d2rexp', 'd2r_exp(a) is not the derivative of dr_exp'),
        'd2r_expinv': ('a_d2rexpinv', 'd2r_expinv(a) is not the derivative of dr_expinv'),
        'd2l_expinv': ('a_d2lexpinv', 'd2l_expinv(a) is not the derivative of dl_expinv')}
 MAX_PER_KEY = {'quick': 9, 'thorough': 60}
+REGION_CAP = {'quick': 1, 'thorough': 6}
 
 
 def audit_factory(tier_holder):
@@ -13,15 +15,20 @@ def audit_factory(tier_holder):
         reqs = []
         cnt = {}
         for l in lines:
-            if l.op in AUD and l.prec == 'f64':
-                k = (l.op, l.grp)
+            op0 = apiops.CANON.get(l.op, l.op)
+            if op0 in AUD and l.prec == 'f64':
+                # separate (small) quota for the new input regions (zero / whole-argument-tiny tangents) and for the
+                # free-function forwards, so that they are audited at all without displacing the stratified samples
+                region = l.tag if l.tag in apiops.NEW_REGION_TAGS else ('forward' if l.op != op0 else '')
+                k = (op0, l.grp, region)
                 cnt[k] = cnt.get(k, 0) + 1
                 dof = len(l.ins)
-                if cnt[k] > MAX_PER_KEY[tier_holder['tier']] or dof > 9:
+                cap = MAX_PER_KEY[tier_holder['tier']] if not region else REGION_CAP[tier_holder['tier']]
+                if cnt[k] > cap or dof > 9:
                     continue
-                op, what = AUD[l.op]
+                op, what = AUD[op0]
                 reqs.append((' '.join([op, l.grp, l.prec + 'a'] + l.ins + l.outs),
-                             {'key': std_key(l), 'line': l.raw, 'tol': TOL[l.prec], 'judge': simple_judge, 'what': what}))
+                             {'key': apiops.canon_key(l), 'line': l.raw, 'tol': TOL[l.prec], 'judge': simple_judge, 'what': what}))
         return reqs
     return audit
 
@@ -64,7 +71,7 @@ class C05(LieProp):
 
 def make():
     th = {'tier': 'quick'}
-    p = C05('C05', ['d2r_exp', 'd2l_exp', 'd2r_expinv', 'd2l_expinv', 'd2r_rminus', 'd2r_rminus_sqn', 'dmp', 'd2fog'],
+    p = C05('C05', ['d2r_exp', 'd2l_exp', 'd2r_expinv', 'd2l_expinv', 'd2r_rminus', 'd2r_rminus_sqn', 'dmp', 'd2fog'] + apiops.API_OPS['C05'],
             ['SmoothProps/C05.lean'], audit_factory(th), TOL,
             rule='harness/lie.cpp: groups with Hessians (SO2 SO3 SE2 SE3 C1 and Bundles of them) x scalar x 9 rotation-angle strata '
                  '(inverses up to pi-1.1e-3) x 5 translation strata; Hessian audit (double precision, dof<=9) by central differences '
